@@ -15,7 +15,7 @@ VARIABLES fs0, batch, pc, i, fs, errs, fds, fdIndex, results, whole
 fvars == <<fs0, batch, pc, i, fs, errs, fds, fdIndex, results, whole>>
 
 MCKinds == {"absent", "regular", "fifo", "symreg"}
-MCStates == { [a |-> x, b |-> y, sub |-> "absent", c |-> "absent", ns |-> {}, ld |-> 0, ls |-> {}, lk |-> {}, ct |-> [a |-> Planted(x), b |-> Planted(y), c |-> NoContent, target |-> Planted("regular")]] : x \in MCKinds, y \in MCKinds }
+MCStates == { [a |-> x, b |-> y, sub |-> "absent", c |-> "absent", ns |-> {}, ld |-> 0, ls |-> {}, lk |-> {}, tl |-> "absent", tt |-> "absent", dl |-> FALSE, dt |-> FALSE, fl |-> {}, ft |-> {}, ct |-> [a |-> Planted(x), b |-> Planted(y), c |-> NoContent, target |-> Planted("regular")]] : x \in MCKinds, y \in MCKinds }
 MCItems == { [p |-> p, mode |-> m, mk |-> FALSE, perm |-> 420] : p \in {"a", "b"}, m \in {"r", "w"} }
 
 FInit == /\ fs0 \in MCStates /\ batch \in UNION { [1..n -> MCItems] : n \in 0..MaxLen }
